@@ -266,10 +266,19 @@ CHECKS['DEV10R'] = c_dev10r
 
 def c_dev20(run):
     r20_shapes.check_shapes(run, run.prog.analysed_functions())
+    r20_shapes.check_predicate_results(run, run.prog.analysed_functions())
     run.explanation = 'dev R20'
 
 
 CHECKS['DEV20'] = c_dev20
+
+
+def c_dev1a(run):
+    r1_resolve.check_call_signatures(run, run.prog.analysed_functions())
+    run.explanation = 'dev R1a'
+
+
+CHECKS['DEV1A'] = c_dev1a
 
 
 def base_exports(run):
